@@ -91,6 +91,8 @@ def gop(o):
         return "OIbtp %d %d" % (o[1], o[2])
     if c == 13:
         return "ORestart"
+    if c == 15:
+        return "ORoleVote %d %d %s" % (o[1], o[2], gbool(o[3]))
     raise ValueError(o)
 
 
@@ -193,8 +195,10 @@ def rand_op(r):
         return [8, r.choice([1, 2])]
     if x < 0.68:
         return [9, r.choice([1, 2, 3]), r.choice([1, 2])]
-    if x < 0.70:
+    if x < 0.695:
         return [11, r.choice([0, 0, 1])]
+    if x < 0.70:
+        return [15, r.choice([1, 2, 3]), r.choice([0, 0, 1]), r.random() < 0.7]
     if x < 0.72:
         return [13]
     return None
@@ -303,6 +307,7 @@ def scenario_histories():
     out += packed_scenarios()
     out += interleaved_scenarios()
     out += transitional_scenarios()
+    out += former_admin_scenarios()
     out += case_twins()
     return out
 
@@ -420,6 +425,30 @@ def case_twins(r=None):
             ops += [[13]]
         ops += r.sample(probe(), 2) + ([[12, 20, z]] if r.random() < 0.3 else [])
     return pack_some(r, ops)
+
+
+def former_admin_scenarios():
+    """a governance admin role (a fourth admin next to the three genesis ones) is registered, proposals are opened
+    while it is available (it is in their electorate), then it is frozen / logged out by the others - or its
+    logout / freeze is only pending - and its account votes on the proposals that are still open, its own included"""
+    S = [[0, 1], [10, 0, True], [0, 2], [10, 0, True], [2, 1, 10, []], [10, 0, True], [2, 2, 20, []], [10, 0, True]]
+    A, T = [10, 0, True], [12, 10, 20]
+    out = []
+    for ev in (3, 1):                      # logout / freeze of the role
+        for decided in (True, False):
+            h = S + [[8, 1], A, [3, 1, 20, []], [1, 1, 2], T, [9, ev, 1]]
+            if decided:
+                h += [A, [15, 1, 0, True], [15, 1, 1, True], T, [15, 1, 0, False]]
+            else:
+                # its own proposal is the newest open one: the role votes against it, then on the older ones
+                h += [[15, 1, 0, False], [15, 1, 1, True], [15, 1, 2, True], T]
+            h += [A, T, [13], [15, 1, 0, True], A, T]
+            out.append(h)
+    # an account that never was an admin, and a role whose registration was rejected
+    out.append(S + [[3, 1, 20, []], [15, 2, 0, True], T, [8, 2], [10, 0, False], [15, 2, 0, True], A, T])
+    # ballots packed into one block with the decisive vote of the others and a request
+    out.append(S + [[8, 1], A, [3, 1, 20, []], [9, 3, 1], A] + pack([15, 1, 0, True], T) + pack(A, T) + [T])
+    return out
 
 
 def transitional_scenarios():
@@ -585,7 +614,8 @@ def classify(v, known):
         step = v[1] % 25000
         what = {1: "an interchain request was accepted/rejected against the stored service records (gate)", 2: "a status changed outside the declared state machine",
                 3: "a logged-out object became usable again", 4: "a frozen / logged-out appchain has an available service (cascade)",
-                5: "a service with a pending logout left status logouting without a rejection or withdrawal"}.get(w, "?")
+                5: "a service with a pending logout left status logouting without a rejection or withdrawal",
+                6: "the ballot of an account that is not an available governance admin (logged out / frozen / never one) was accepted"}.get(w, "?")
         fid = {1: FLAG_FINDING["d_cache_failed_events"], 4: FLAG_FINDING["d_logout_reject_unpauses"], 5: FLAG_FINDING["d_unpause_restores_locked"]}.get(w)
         if explained and fid in known:
             return "known", fid
